@@ -411,15 +411,18 @@ harness!(avx2vec, 34, c02_tiny_m3_r1_l5_generic, collect_sparse_body::<3, 1, 5, 
 //@ C02 thorough 7200 scanner to exhaustion: matrix 0 (M=2), R=1, L=32 (full last column), symbolic symbols at 0, 1, 30, 31 on a background of T, threshold 2.0, AVX2 arm | mem=8 | unwindset=scan::Scanner<.*Iterator>::next#0:6
 harness!(avx2vec, 34, c02_tiny_m0_r1_l32_avx2, collect_sparse_body::<0, 1, 32, 256, 2>(Dispatch::Avx2, 2.0, 2, &[0, 1, 30, 31]));
 
-// Control-only instances for the quick tier (< 15 min): the sequence content is concrete, so the
-// byte scores and every candidate decision constant-fold; what is exercised is the block loop
-// (row / end arithmetic against sequence rows and look-ahead rows), termination and the absence
-// of panics for block boundaries. The symbolic-content instances above are thorough-tier.
-//@ C02 quick 800 scanner control (concrete content TTT...): matrix 0 (M=2), R=2, L=64, block 2 (next block would start on the look-ahead row), threshold above every score, AVX2 arm | mem=8 | unwindset=scan::Scanner<.*Iterator>::next#0:6
+// Control-only instances: concrete sequence content and a threshold above every score, so that
+// no candidate exists; what is exercised is the block loop (row / end arithmetic against sequence
+// rows and look-ahead rows), termination and the absence of panics at block boundaries. They were
+// meant for the quick tier, but the content of a heap matrix read back by the kernels does not
+// constant-fold in CBMC: even these take > 800 s (11 M SAT variables), so they are thorough-tier
+// too. The quick tier of C02 / C03 is therefore limited to the instances where scoring returns
+// early (L < M, empty sequence), which is where the panics of the unrepaired scanner were.
+//@ C02 thorough 7200 scanner control (concrete content TTT...): matrix 0 (M=2), R=2, L=64, block 2 (next block would start on the look-ahead row), threshold above every score, AVX2 arm | mem=8 | unwindset=scan::Scanner<.*Iterator>::next#0:6
 harness!(avx2vec, 66, c02_ctl_m0_r2_l64_b2_avx2, collect_sparse_body::<0, 2, 64, 2, 2>(Dispatch::Avx2, 30.0, 2, &[]));
-//@ C02 quick 800 scanner control (concrete content): matrix 2 (M=3), R=3, L=90, block 2 (last block = one row + look-ahead rows), threshold above every score, generic arm | mem=8 | unwindset=scan::Scanner<.*Iterator>::next#0:6
+//@ C02 thorough 7200 scanner control (concrete content): matrix 2 (M=3), R=3, L=90, block 2 (last block = one row + look-ahead rows), threshold above every score, generic arm | mem=8 | unwindset=scan::Scanner<.*Iterator>::next#0:6
 harness!(avx2vec, 66, c02_ctl_m2_r3_l90_b2_generic, collect_sparse_body::<2, 3, 90, 2, 2>(Dispatch::Generic, 30.0, 0, &[]));
-//@ C02 quick 800 scanner control (concrete content): matrix 0 (M=2), R=2, L=33, block 1, one symbolic symbol at the end, threshold above every score, AVX2 arm | mem=8 | unwindset=scan::Scanner<.*Iterator>::next#0:6
+//@ C02 thorough 7200 scanner control (concrete content): matrix 0 (M=2), R=2, L=33, block 1, one symbolic symbol at the end, threshold above every score, AVX2 arm | mem=8 | unwindset=scan::Scanner<.*Iterator>::next#0:6
 harness!(avx2vec, 34, c02_ctl_m0_r2_l33_b1_avx2, collect_sparse_body::<0, 2, 33, 1, 2>(Dispatch::Avx2, 30.0, 1, &[32]));
 
 // --- C03 -------------------------------------------------------------------------------
@@ -451,7 +454,7 @@ harness!(avx2vec, 34, c03_tiny_m0_r1_l4_avx2_pre0, max_sparse_body::<0, 1, 4, 25
 harness!(avx2vec, 34, c03_tiny_m2_r1_l6_avx2_pre0, max_sparse_body::<2, 1, 6, 256, 0>(Dispatch::Avx2, 1.25, 0, &[0, 1, 2, 3, 4, 5]));
 //@ C03 thorough 7200 scanner max(): matrix 0 (M=2), R=1, L=5 all symbolic, threshold 2.0 (a score value: equality matters), generic arm, one prior next() | mem=8 | unwindset=scan::Scanner<.*Iterator>::next#0:6;scan::Scanner<.*Iterator>::max#0:6
 harness!(avx2vec, 34, c03_tiny_m0_r1_l5_generic_pre1, max_sparse_body::<0, 1, 5, 256, 1>(Dispatch::Generic, 2.0, 0, &[0, 1, 2, 3, 4]));
-//@ C03 quick 800 scanner max() control (concrete content): matrix 0 (M=2), R=2, L=64, block 2, threshold above every score, AVX2 arm, one prior next() | mem=8 | unwindset=scan::Scanner<.*Iterator>::next#0:6;scan::Scanner<.*Iterator>::max#0:6
+//@ C03 thorough 7200 scanner max() control (concrete content): matrix 0 (M=2), R=2, L=64, block 2, threshold above every score, AVX2 arm, one prior next() | mem=8 | unwindset=scan::Scanner<.*Iterator>::next#0:6;scan::Scanner<.*Iterator>::max#0:6
 harness!(avx2vec, 66, c03_ctl_m0_r2_l64_b2_avx2_pre1, max_sparse_body::<0, 2, 64, 2, 1>(Dispatch::Avx2, 30.0, 2, &[]));
-//@ C03 quick 800 scanner max() control (concrete content): matrix 2 (M=3), R=3, L=90, block 2, threshold above every score, generic arm | mem=8 | unwindset=scan::Scanner<.*Iterator>::next#0:6;scan::Scanner<.*Iterator>::max#0:6
+//@ C03 thorough 7200 scanner max() control (concrete content): matrix 2 (M=3), R=3, L=90, block 2, threshold above every score, generic arm | mem=8 | unwindset=scan::Scanner<.*Iterator>::next#0:6;scan::Scanner<.*Iterator>::max#0:6
 harness!(avx2vec, 66, c03_ctl_m2_r3_l90_b2_generic_pre0, max_sparse_body::<2, 3, 90, 2, 0>(Dispatch::Generic, 30.0, 0, &[]));
